@@ -195,12 +195,20 @@ def run_shard(args):
     strat = mod.strategy(tier)
     idx = [0]
 
+    # Hypothesis starts every run with the all-minimal example.  With an expensive property a shard only gets a
+    # few examples, and 16 shards would spend 16 of them on that one trivial case: skip it there (ask for one more).
+    skip_first = n < 20
+    res['skipped_minimal'] = 0
+
     @hypothesis.seed(seed)
-    @_hyp_settings(n, shrink=False)
+    @_hyp_settings(n + (1 if skip_first else 0), shrink=False)
     @given(strat)
     def collect(case):
         i = idx[0]
         idx[0] += 1
+        if skip_first and i == 0:
+            res['skipped_minimal'] += 1
+            return
         if time.time() - t0 > budget_s:
             res['skipped_budget'] += 1
             return
@@ -245,10 +253,17 @@ def run_shrink(args):
     t0 = time.time()
     best = {}
 
+    skip_first = n < 20
+    first = [True]
+
     @hypothesis.seed(seed)
-    @_hyp_settings(n, shrink=True)
+    @_hyp_settings(n + (1 if skip_first else 0), shrink=True)
     @given(strat)
     def shrink(case):
+        if first[0]:
+            first[0] = False
+            if skip_first:
+                return
         if time.time() - t0 > cap_s:
             return      # budget exhausted: stop shrinking (Hypothesis may then say "flaky")
         obs = run_check(mod, case)
